@@ -34,5 +34,12 @@ PROP = {
         "watchdog": {"quick": 900, "thorough": 5400},
         "floors": {"quick": {"nontrivial": 150, "oracle_terminates": 150},
                    "thorough": {"nontrivial": 1700}},
+    }, {
+        "name": "rbf", "pkg": "lnwallet/chancloser", "test": "TestVerifC17Rbf",
+        "files": ["lnwallet/chancloser/c17rbf_test.go"], "exports": {"lnwallet": E1X},
+        "shards": {"quick": 8, "thorough": 16},
+        "watchdog": {"quick": 900, "thorough": 5400},
+        "floors": {"quick": {"nontrivial": 1, "oracle_identical_tx": 1},
+                   "thorough": {"nontrivial": 1}},
     }],
 }
